@@ -838,7 +838,7 @@ func isEmptyComments(v ssa.Value) bool {
 }
 
 func runC15(c *core.Ctx) {
-	c.Explanation = "Comment-slot coverage between parser (writer) and formatter (reader), decided on SSA: every site where the parser places comments — SwapLeadingTrailing/SwapLeadingInfix, stores to Meta.Leading/Trailing/Infix or to other ast.Comments fields of a node, and the implicit Leading of a node built from the token window — is resolved to an owner (node kind, or child reached through one field of the node under construction) and a slot. The formatter side is an inter-procedural summary (fixpoint over formatter and the ast renderers it calls statically) of which slots of which parameter-rooted access paths are read, with type-switch arms narrowing interface-typed roots. Obligation: every (owner, slot) the parser fills is read by some printer; a slot nobody reads loses every comment written there (including #FASTLY macros and falco-ignore annotations). Also formatComment emits every element of its argument. Parser side (cmt.token): every p.NextToken / successful p.ExpectPeek in a Parser method is an obligation - before the window advances again or the method returns without error, the comments in front of the new current token are moved by a Swap*(p.curToken, …), were moved while it was the peek token, are read explicitly, or the token becomes the Meta of a node / the start of a sub-parser; a return hands the obligation to the static callers. cmt.overwrite: a slot is not assigned twice on one path without a read between; cmt.dropnode: a parsed node that carries comments is stored into the tree; cmt.destructure: a printer that flattens an expression node reads its slots on every path through the flattening call (must-summaries of the callees). cmt.once: no printer reads a slot itself after handing the node to a printer that reads the same slot on every path (printed twice)."
+	c.Explanation = "Comment-slot coverage between parser (writer) and formatter (reader), decided on SSA: every site where the parser places comments — SwapLeadingTrailing/SwapLeadingInfix, stores to Meta.Leading/Trailing/Infix or to other ast.Comments fields of a node, and the implicit Leading of a node built from the token window — is resolved to an owner (node kind, or child reached through one field of the node under construction) and a slot. The formatter side is an inter-procedural summary (fixpoint over formatter and the ast renderers it calls statically) of which slots of which parameter-rooted access paths are read, with type-switch arms narrowing interface-typed roots. Obligation: every (owner, slot) the parser fills is read by some printer; a slot nobody reads loses every comment written there (including #FASTLY macros and falco-ignore annotations). Also formatComment emits every element of its argument. Parser side (cmt.token): every p.NextToken / successful p.ExpectPeek in a Parser method is an obligation - before the window advances again or the method returns without error, the comments in front of the new current token are moved by a Swap*(p.curToken, …), were moved while it was the peek token, are read explicitly, or the token becomes the Meta of a node / the start of a sub-parser; a return hands the obligation to the static callers. cmt.overwrite: a slot is not assigned twice on one path without a read between; cmt.dropnode: a parsed node that carries comments is stored into the tree; cmt.destructure: a printer that flattens an expression node reads its slots on every path through the flattening call (must-summaries of the callees). cmt.order: the Swap* helpers append the moved comments behind the content of the destination slot. cmt.once: no printer reads a slot itself after handing the node to a printer that reads the same slot on every path (printed twice)."
 	c.NotCovered = []string{"relative order of comments as a value property", "that the printed position re-parses into the same slot", "comments of tokens the parser consumes without transferring them (parser-side typestate, not attempted)", "owners resolved only by static type (~U) are matched weakly: any reader of that type and slot"}
 	prog := c.Prog
 	u := newAstUniverse(prog)
@@ -1117,6 +1117,8 @@ func runC15(c *core.Ctx) {
 	if len(twice) == 0 {
 		c.Discharge("cmt.once", "formatter", token.NoPos, "no printer reads a comment slot itself after handing the node to a printer that reads the same slot on all its paths")
 	}
+	// ---- cmt.order: moved comments are appended behind the earlier ones
+	checkSwapOrder(c)
 	// ---- cmt.overwrite: the parser does not overwrite a comment slot it has just filled
 	checkSlotOverwrite(c)
 	// ---- cmt.destructure: a printer that takes an expression node apart reads the node's own comments too
@@ -2396,4 +2398,50 @@ func rootLabel(v ssa.Value) string {
 		return p.Name()
 	}
 	return core.NamedTypeName(derefType(v.Type()))
+}
+
+// checkSwapOrder (cmt.order): the parser moves comments into a slot in the order it meets them: what the slot already
+// holds was written earlier in the source than the comments that are being moved. Every Swap* helper therefore appends
+// the moved comments (from.Leading) behind the destination slot's content - append(to.S, from.Leading...) - and stores
+// the result into that same slot. The other order prints later comments in front of earlier ones.
+func checkSwapOrder(c *core.Ctx) {
+	prog := c.Prog
+	n := 0
+	for _, fn := range prog.ModuleFuncs("parser") {
+		if !strings.HasPrefix(fn.Name(), "SwapLeading") || len(fn.Params) != 2 {
+			continue
+		}
+		from, to := fn.Params[0], fn.Params[1]
+		for _, b := range fn.Blocks {
+			for _, in := range b.Instrs {
+				call, ok := in.(*ssa.Call)
+				if !ok {
+					continue
+				}
+				bi, ok := call.Common().Value.(*ssa.Builtin)
+				if !ok || bi.Name() != "append" || len(call.Common().Args) != 2 {
+					continue
+				}
+				n++
+				strip := func(v ssa.Value) ssa.Value {
+					for {
+						if ct, ok := v.(*ssa.ChangeType); ok {
+							v = ct.X
+							continue
+						}
+						return v
+					}
+				}
+				r0, p0 := chainOf(strip(call.Common().Args[0]))
+				r1, p1 := chainOf(strip(call.Common().Args[1]))
+				key := fn.Name() + "|append"
+				if r0 == ssa.Value(to) && r1 == ssa.Value(from) && len(p1) > 0 && p1[len(p1)-1] == "Leading" && len(p0) > 0 {
+					c.Discharge("cmt.order", key, in.Pos(), "append(to."+p0[len(p0)-1]+", from.Leading...): earlier comments stay in front")
+				} else {
+					c.Report("cmt.order", key, in.Pos(), fmt.Sprintf("%s does not append the moved comments behind what the destination slot already holds (append(to.<slot>, from.Leading...)): when a slot is filled from two tokens (`fn(/* a */) /* b */;`, `case /* a */ ~ /* b */ \"x\":`) the comments come out in another order than they were written", fn.Name()))
+				}
+			}
+		}
+	}
+	c.Floor("cmt.order", 2)
 }
